@@ -189,3 +189,44 @@ Proof.
     assert (d / (1 + d) < 1 / 2) by (apply Rmult_lt_reg_r with (2 * (1 + d)); [lra|]; field_simplify; lra).
     lra.
 Qed.
+
+(* ---- strict versions: a group with a non-zero formal charge loses charge strictly with pH, and a protein with at least
+   one such titratable group has strictly decreasing total curves (so each has at most one zero: the pI is unique) ---- *)
+Lemma pow10_strict x y : x < y -> pow10 x < pow10 y.
+Proof. intros H. unfold pow10, Rpower. apply exp_increasing. pose proof ln10_pos. nra. Qed.
+Lemma frac_strict c d : 0 < c -> c < d -> frac c < frac d.
+Proof. intros Hc Hd. unfold frac.
+  apply Rmult_lt_reg_r with ((1 + c) * (1 + d)); [nra|].
+  replace (c / (1 + c) * ((1 + c) * (1 + d))) with (c * (1 + d)) by (field; lra).
+  replace (d / (1 + d) * ((1 + c) * (1 + d))) with (d * (1 + c)) by (field; lra). nra. Qed.
+Theorem charge_strict q pk ph1 ph2 : q <> 0 -> ph1 < ph2 -> charge q pk ph2 < charge q pk ph1.
+Proof.
+  intros Hq H. unfold charge. fold (frac (pow10 (q * (pk - ph2)))). fold (frac (pow10 (q * (pk - ph1)))).
+  destruct (Rlt_dec 0 q) as [Hpos|Hneg].
+  - apply Rmult_lt_compat_l; [exact Hpos|]. apply frac_strict; [apply pow10_pos|]. apply pow10_strict. nra.
+  - assert (Hq' : q < 0) by lra.
+    assert (frac (pow10 (q * (pk - ph1))) < frac (pow10 (q * (pk - ph2)))).
+    { apply frac_strict; [apply pow10_pos|]. apply pow10_strict. nra. }
+    nra.
+Qed.
+Lemma sum_strict (l : list (grp R)) (pk : grp R -> R) ph1 ph2 : ph1 < ph2 ->
+  List.Exists (fun g => grp_charge g <> 0) l ->
+  sumR (map (fun g => charge (grp_charge g) (pk g) ph2) l) < sumR (map (fun g => charge (grp_charge g) (pk g) ph1) l).
+Proof.
+  intros H Hex. induction Hex as [g r Hg | g r Hr IH]; cbn [map sumR].
+  - pose proof (charge_strict (grp_charge g) (pk g) _ _ Hg H).
+    pose proof (sum_antitone r pk ph1 ph2 (Rlt_le _ _ H)). lra.
+  - pose proof (charge_antitone (grp_charge g) (pk g) ph1 ph2 (Rlt_le _ _ H)). lra.
+Qed.
+Definition has_charged_titratable (gs : list (grp R)) : Prop :=
+  List.Exists (fun g => grp_charge g <> 0) (filter (fun g => grp_titratable g) gs).
+Theorem Qfolded_strict gs ph1 ph2 : has_charged_titratable gs -> ph1 < ph2 -> Qfolded gs ph2 < Qfolded gs ph1.
+Proof. intros Hex H. unfold Qfolded. rewrite !total_charge_is_sum. cbn [snd]. apply sum_strict; assumption. Qed.
+Theorem Qunfolded_strict gs ph1 ph2 : has_charged_titratable gs -> ph1 < ph2 -> Qunfolded gs ph2 < Qunfolded gs ph1.
+Proof. intros Hex H. unfold Qunfolded. rewrite !total_charge_is_sum. cbn [fst]. apply sum_strict; assumption. Qed.
+Theorem zero_unique (Q : R -> R) : (forall a b, a < b -> Q b < Q a) -> forall x y, Q x = 0 -> Q y = 0 -> x = y.
+Proof.
+  intros Hs x y Hx Hy. destruct (Rtotal_order x y) as [Hlt|[Heq|Hgt]]; [|exact Heq|].
+  - pose proof (Hs x y Hlt). lra.
+  - pose proof (Hs y x Hgt). lra.
+Qed.
